@@ -107,6 +107,11 @@ def entry_ops(t):
 
 
 def judge(ctx, entry, op, sig, touched=False):
+    if ctx.evaluations % 3 == 0:
+        from ..obs import prime
+
+        prime()  # history priming: the previous call through the shared quoters ended in a dangling escape
+        ctx.count("primed_calls")
     r = guarded(apply, op, touch_all if touched else None)
     if is_exc(r):
         ctx.ev(sig + ("exc:" + r.type,) if sig else None)
